@@ -1,16 +1,24 @@
+(** TaskLane: proof infrastructure (step inversion, list-update sums, association lists) and the
+    per-task location invariant [Inv] (exactly-once). *)
 From Coq Require Import List Arith Bool Lia.
 Import ListNotations.
 From Glb Require Import Model.TaskLane.
 
-Definition qtask (x : qpc) : list task :=
-  match x with QTook t | QHeld t | QTry t | QOffer t => [t] | QDead (Some t) => [t] | _ => [] end.
-Definition ltasks (l : lane) : list task := buf l ++ qtask (q l).
-Definition cnt_in (t : task) (l : list task) := count_occ Nat.eq_dec l t.
-Definition where_ (s : state) (t : task) : nat :=
-  list_sum (map (fun l => cnt_in t (ltasks l)) (lanes s)) + cnt_in t (started s).
-Definition acc (s : state) (t : task) : nat := if existsb (Nat.eqb t) (accepted s) then 1 else 0.
-Definition Inv (s : state) : Prop := forall t, where_ s t = acc s t.
+(* ---------- simplification of projections of updated states ---------- *)
+Ltac st_simpl :=
+  cbn [lanes cancelled cnt accepted started finished last_panic panics prods obs pushed failed snaps
+       setl set_cancelled set_cnt set_accepted set_started set_finished set_panic set_prods set_obs
+       set_pushed set_failed set_snaps pstate_of ostate_of].
+Ltac st_simpl_in H :=
+  cbn [lanes cancelled cnt accepted started finished last_panic panics prods obs pushed failed snaps
+       setl set_cancelled set_cnt set_accepted set_started set_finished set_panic set_prods set_obs
+       set_pushed set_failed set_snaps pstate_of ostate_of] in H.
+Ltac st_simpl_all :=
+  cbn [lanes cancelled cnt accepted started finished last_panic panics prods obs pushed failed snaps
+       setl set_cancelled set_cnt set_accepted set_started set_finished set_panic set_prods set_obs
+       set_pushed set_failed set_snaps pstate_of ostate_of] in *.
 
+(* ---------- list update ---------- *)
 Lemma sum_upd {A} (f : A -> nat) l i a x :
   nth_error l i = Some a ->
   list_sum (map f (upd l i x)) + f a = list_sum (map f l) + f x.
@@ -20,129 +28,271 @@ Proof.
   - specialize (IH i H). change (list_sum (f h :: ?l)) with (f h + list_sum l). lia.
 Qed.
 
+Lemma length_upd {A} (l : list A) i x : length (upd l i x) = length l.
+Proof. revert i; induction l as [|h tl IH]; intros [|i]; cbn [upd length]; auto. Qed.
+
+Lemma nth_error_upd_same {A} (l : list A) i a x : nth_error l i = Some a -> nth_error (upd l i x) i = Some x.
+Proof. revert i; induction l as [|h tl IH]; intros [|i] H; cbn [nth_error upd] in *; try discriminate; auto. Qed.
+
+Lemma nth_error_upd_other {A} (l : list A) i j x : i <> j -> nth_error (upd l i x) j = nth_error l j.
+Proof.
+  revert i j; induction l as [|h tl IH]; intros [|i] [|j] H; cbn [nth_error upd] in *; auto; try congruence.
+Qed.
+
+Lemma nth_error_upd_inv {A} (l : list A) i j a x y :
+  nth_error l i = Some a -> nth_error (upd l i x) j = Some y ->
+  (i = j /\ y = x) \/ (i <> j /\ nth_error l j = Some y).
+Proof.
+  intros Hi Hj. destruct (Nat.eq_dec i j) as [->|Hne].
+  - left. rewrite (nth_error_upd_same _ _ _ _ Hi) in Hj. inversion Hj; auto.
+  - right. rewrite nth_error_upd_other in Hj by auto. auto.
+Qed.
+
+Lemma Forall_upd {A} (P : A -> Prop) l i x : Forall P l -> P x -> Forall P (upd l i x).
+Proof.
+  intros H Hx. revert i; induction H as [|h tl Hh Ht IH]; intros [|i]; cbn [upd]; constructor; auto.
+Qed.
+
+Lemma Forall_nth_error {A} (P : A -> Prop) l i a : Forall P l -> nth_error l i = Some a -> P a.
+Proof. intros H Hn. rewrite Forall_forall in H. apply H. eapply nth_error_In; eauto. Qed.
+
+Lemma sum_le_length {A} (f : A -> nat) l : (forall a, f a <= 1) -> list_sum (map f l) <= length l.
+Proof.
+  intros H. induction l as [|h tl IH]; cbn [map length]; [cbn; lia|].
+  change (list_sum (?a :: ?l)) with (a + list_sum l). specialize (H h). lia.
+Qed.
+
+Lemma sum_Forall_le {A} (f : A -> nat) k l : Forall (fun a => f a <= k) l -> list_sum (map f l) <= length l * k.
+Proof.
+  induction 1 as [|h tl Hh Ht IH]; cbn [map length]; [cbn; lia|].
+  change (list_sum (?a :: ?l)) with (a + list_sum l). lia.
+Qed.
+
+(* ---------- association lists ---------- *)
+Lemma aget_aset {A} (d : A) l k v k' : aget d (aset l k v) k' = if Nat.eqb k' k then v else aget d l k'.
+Proof.
+  induction l as [|[k0 v0] r IH]; cbn [aset aget fst snd].
+  - destruct (Nat.eqb k' k); reflexivity.
+  - destruct (Nat.eqb_spec k k0) as [->|Hne]; cbn [aget fst snd].
+    + destruct (Nat.eqb k' k0); reflexivity.
+    + rewrite IH. destruct (Nat.eqb_spec k' k0) as [->|]; auto.
+      destruct (Nat.eqb_spec k0 k); congruence.
+Qed.
+
+Lemma sum_aset {A} (d : A) (f : A -> nat) l k v : f d = 0 ->
+  list_sum (map (fun kv => f (snd kv)) (aset l k v)) + f (aget d l k) = list_sum (map (fun kv => f (snd kv)) l) + f v.
+Proof.
+  intros Hd. induction l as [|[k0 v0] r IH]; cbn [aset aget map fst snd].
+  - change (list_sum (?a :: ?l)) with (a + list_sum l). cbn [list_sum fold_right snd]. lia.
+  - destruct (Nat.eqb_spec k k0) as [->|Hne]; cbn [map snd];
+      change (list_sum (?a :: ?l)) with (a + list_sum l); lia.
+Qed.
+
+(* ---------- counting ---------- *)
+Definition cnt_in (t : task) (l : list task) := count_occ Nat.eq_dec l t.
 Lemma cnt_app t a b : cnt_in t (a ++ b) = cnt_in t a + cnt_in t b.
 Proof. unfold cnt_in. apply count_occ_app. Qed.
 Lemma cnt_nil t : cnt_in t [] = 0. Proof. reflexivity. Qed.
 Lemma cnt_cons t x l : cnt_in t (x :: l) = (if Nat.eqb t x then 1 else 0) + cnt_in t l.
 Proof. unfold cnt_in. cbn [count_occ]. destruct (Nat.eq_dec x t); destruct (Nat.eqb_spec t x); subst; try congruence; lia. Qed.
-
-Lemma where_setl s i a x t :
-  nth_error (lanes s) i = Some a ->
-  where_ (setl s i x) t + cnt_in t (ltasks a) = where_ s t + cnt_in t (ltasks x).
+Lemma cnt_pos_In t l : In t l <-> cnt_in t l >= 1.
+Proof. unfold cnt_in. rewrite (count_occ_In Nat.eq_dec). lia. Qed.
+Lemma cnt_zero_notIn t l : ~ In t l <-> cnt_in t l = 0.
+Proof. unfold cnt_in. apply count_occ_not_In. Qed.
+Lemma cnt_existsb t l : existsb (Nat.eqb t) l = false -> cnt_in t l = 0.
 Proof.
-  intros H. unfold where_, setl; cbn [lanes started].
-  pose proof (sum_upd (fun l => cnt_in t (ltasks l)) _ _ _ x H). lia.
+  induction l as [|x r IH]; cbn [existsb]; [reflexivity|]. intros H. apply orb_false_iff in H as [H1 H2].
+  rewrite cnt_cons, H1, IH; auto.
+Qed.
+Lemma NoDup_cnt l : (forall t, cnt_in t l <= 1) -> NoDup l.
+Proof. intros H. apply (NoDup_count_occ Nat.eq_dec). exact H. Qed.
+Lemma cnt_flat_map {A} (f : A -> list task) t l :
+  cnt_in t (flat_map f l) = list_sum (map (fun x => cnt_in t (f x)) l).
+Proof.
+  induction l as [|h tl IH]; cbn [flat_map map]; [reflexivity|].
+  rewrite cnt_app, IH. reflexivity.
+Qed.
+Lemma length_flat_map {A B} (f : A -> list B) l :
+  length (flat_map f l) = list_sum (map (fun x => length (f x)) l).
+Proof.
+  induction l as [|h tl IH]; cbn [flat_map map]; [reflexivity|].
+  rewrite app_length, IH. reflexivity.
 Qed.
 
-Lemma handover_where s i j t s' li :
-  nth_error (lanes s) i = Some li -> q li = QTry t \/ q li = QOffer t ->
-  handover s i j t = Some s' ->
-  (forall u, where_ s' u = where_ s u) /\ accepted s' = accepted s.
+(* ---------- step inversion ---------- *)
+Lemma handover_spec s i j t s' li :
+  nth_error (lanes s) i = Some li -> handover s i j t = Some s' ->
+  exists lj, nth_error (upd (lanes s) i (mkLane (buf li) QSent (w li))) j = Some lj /\
+    s' = set_started (setl (setl s i (mkLane (buf li) QSent (w li))) j (mkLane (buf lj) (q lj) (WRun t))) (t :: started s).
 Proof.
-  intros Hi Hq Hh. unfold handover in Hh. rewrite Hi in Hh.
+  intros Hi Hh. unfold handover in Hh. rewrite Hi in Hh. cbv zeta in Hh.
   destruct (nth_error (lanes (setl s i _)) j) as [lj|] eqn:Hj; [|discriminate].
-  inversion Hh; subst s'; clear Hh. split; [|reflexivity]. intros u.
-  pose proof (where_setl s i _ (mkLane (buf li) QSent (w li)) u Hi) as E1.
-  pose proof (where_setl _ j _ (mkLane (buf lj) (q lj) (WRun t)) u Hj) as E2.
-  match goal with |- where_ ?S u = _ =>
-    assert (W : where_ S u = where_ (setl (setl s i (mkLane (buf li) QSent (w li))) j (mkLane (buf lj) (q lj) (WRun t))) u
-                + (if Nat.eqb u t then 1 else 0) + 0) end.
-  { unfold where_; cbn [lanes started setl]. rewrite cnt_cons. lia. }
-  rewrite W; clear W.
-  unfold ltasks in E1, E2; cbn [buf q w qtask] in E1, E2.
-  rewrite ?cnt_app, ?cnt_nil in E1. rewrite ?cnt_app, ?cnt_nil in E2.
-  assert (cnt_in u (qtask (q li)) = (if Nat.eqb u t then 1 else 0)) as E3.
-  { destruct Hq as [-> | ->]; cbn [qtask]; rewrite cnt_cons, cnt_nil; lia. }
-  lia.
+  exists lj. split; [exact Hj|]. inversion Hh. reflexivity.
 Qed.
 
-(* one-lane steps: s' has lanes = upd .. and the same started *)
-Ltac one_lane s i u Hn :=
-  unfold setl;
-  match goal with |- where_ ?S u = acc ?S u =>
-    match S with context [upd (lanes s) i ?X] =>
-      change (where_ S u) with (where_ (setl s i X) u);
-      let E := fresh "E" in
-      pose proof (where_setl s i _ X u Hn) as E;
-      unfold ltasks in E; cbn [buf q w qtask] in E; rewrite ?cnt_app, ?cnt_cons, ?cnt_nil in E
+(* destruct every match/if at the head of [Hs : ... = Some s'] until it is [Some X = Some s'] or a handover *)
+Ltac inv_step Hs :=
+  repeat (cbv beta iota zeta in Hs;
+    lazymatch type of Hs with
+    | (match ?x with _ => _ end) = Some _ =>
+        first [ is_var x;
+                lazymatch type of x with
+                | lane => let b := fresh "b" in let qq := fresh "qq" in let ww := fresh "ww" in destruct x as [b qq ww]
+                | _ => destruct x
+                end
+              | destruct x eqn:? ]; try discriminate Hs
+    end).
+
+(* after inv_step: turn the remaining equation into a substitution *)
+Ltac fin_step Hs s' :=
+  lazymatch type of Hs with
+  | Some _ = Some _ =>
+      try match type of Hs with context [match ?r with Some _ => _ | None => _ end] => destruct r end;
+      injection Hs as Hs; subst s'
+  | handover _ _ _ _ = Some _ =>
+      match goal with
+      | Hn : nth_error (lanes _) _ = Some _ |- _ =>
+          let lj := fresh "lj" in let Hj := fresh "Hj" in
+          destruct (handover_spec _ _ _ _ _ _ Hn Hs) as (lj & Hj & ->); clear Hs;
+          let b := fresh "bj" in let qq := fresh "qj" in let ww := fresh "wj" in destruct lj as [b qq ww]
+      end
+  end;
+  cbn [buf q w] in *.
+
+(* ---------- the location invariant ---------- *)
+Definition qtask (x : qpc) : list task :=
+  match x with QTook t | QHeld t | QTry t | QOffer t => [t] | QDead (Some t) => [t] | _ => [] end.
+Definition ltasks (l : lane) : list task := buf l ++ qtask (q l).
+Definition lcount (t : task) (l : lane) : nat := cnt_in t (ltasks l).
+Definition where_ (s : state) (t : task) : nat :=
+  list_sum (map (lcount t) (lanes s)) + cnt_in t (started s).
+Definition Inv (s : state) : Prop := forall t, where_ s t = cnt_in t (accepted s).
+
+(* pose the sum_upd equation of [f] for every [upd L i x] (with known [nth_error L i]) *)
+Ltac upd_facts f :=
+  repeat match goal with
+  | Hn : nth_error ?L ?i = Some ?a |- _ =>
+    match goal with
+    | |- context [upd L i ?x] =>
+      lazymatch goal with
+      | _ : list_sum (map f (upd L i x)) + f a = _ |- _ => fail
+      | _ => pose proof (sum_upd f L i a x Hn)
+      end
+    | _ : context [upd L i ?x] |- _ =>
+      lazymatch goal with
+      | _ : list_sum (map f (upd L i x)) + f a = _ |- _ => fail
+      | _ => pose proof (sum_upd f L i a x Hn)
+      end
     end
   end.
 
-Ltac dq Hs q0 := destruct q0; cbv beta iota in Hs; try discriminate.
-Ltac dc Hs c := destruct c eqn:?; cbv beta iota in Hs; [|discriminate].
+Ltac lc_simpl :=
+  unfold lcount, ltasks in *; cbn [buf q w qtask] in *;
+  rewrite ?cnt_app, ?cnt_cons, ?cnt_nil in *.
+
+Lemma push_lane_count qs li t li' u :
+  push_lane qs li t = Some li' -> lcount u li' = lcount u li + (if Nat.eqb u t then 1 else 0).
+Proof.
+  unfold push_lane. intros H. destruct li as [b0 q0 w0]. cbn [buf q w] in H.
+  destruct (qs =? 0).
+  - destruct q0; try discriminate. injection H as <-. lc_simpl. lia.
+  - destruct (length b0 <? qs); [|discriminate]. injection H as <-. lc_simpl. lia.
+Qed.
 
 Theorem step_inv qs s l s' : Inv s -> step qs s l = Some s' -> Inv s'.
 Proof.
-  intros HI Hs u. specialize (HI u).
-  destruct l; cbn [step] in Hs;
-  try (destruct (cancelled s) eqn:Hcan; cbv beta iota in Hs; [|discriminate]);
-  try match type of Hs with (match nth_error (lanes s) ?i with _ => _ end) = _ =>
-        destruct (nth_error (lanes s) i) as [[b0 q0 w0]|] eqn:Hn; cbv beta iota delta [buf q w] in Hs; [|discriminate] end.
-  - (* Push *)
-    destruct ((length b0 <? qs) && negb (existsb (Nat.eqb t) (accepted s))) eqn:Hc; cbv beta iota in Hs; [|discriminate].
-    inversion Hs; subst s'; clear Hs. apply andb_true_iff in Hc as [_ Hfresh]. apply negb_true_iff in Hfresh.
-    one_lane s i u Hn. unfold acc in *; cbn [accepted setl existsb].
-    destruct (Nat.eqb_spec u t) as [->|Hne]; cbn [orb].
-    + rewrite Hfresh in HI. lia.
-    + destruct (existsb (Nat.eqb u) (accepted s)); lia.
-  - (* Cancel *) destruct (cancelled s); [discriminate|]. inversion Hs; subst; exact HI.
-  - (* QTake *)
-    destruct b0 as [|t b]; cbv beta iota in Hs; [discriminate|]. dq Hs q0.
-    inversion Hs; subst s'; clear Hs. one_lane s i u Hn. unfold acc in *; cbn [accepted setl]. lia.
-  - (* QDie *)
-    dq Hs q0; inversion Hs; subst s'; clear Hs; one_lane s i u Hn; unfold acc in *; cbn [accepted setl]; lia.
-  - (* QCount *)
-    dq Hs q0. inversion Hs; subst s'; clear Hs. one_lane s i u Hn. unfold acc in *; cbn [accepted setl]. lia.
-  - (* QCheck *)
-    dq Hs q0. inversion Hs; subst s'; clear Hs. one_lane s i u Hn. unfold acc in *; cbn [accepted setl].
-    destruct (cancelled s); cbn [qtask] in *; rewrite ?cnt_cons, ?cnt_nil in *; lia.
-  - (* QTryOwn *)
-    dq Hs q0. destruct (receptive_own w0); cbv beta iota in Hs; [|discriminate].
-    destruct (handover_where s i i t s' _ Hn (or_introl eq_refl) Hs) as [E Ea]. unfold acc. rewrite E, Ea. exact HI.
-  - (* QTryFail *)
-    dq Hs q0. inversion Hs; subst s'; clear Hs. one_lane s i u Hn. unfold acc in *; cbn [accepted setl]. lia.
-  - (* QOfferOwn *)
-    dq Hs q0. destruct (receptive_own w0); cbv beta iota in Hs; [|discriminate].
-    destruct (handover_where s i i t s' _ Hn (or_intror eq_refl) Hs) as [E Ea]. unfold acc. rewrite E, Ea. exact HI.
-  - (* QOfferUni *)
-    dq Hs q0.
-    destruct (nth_error (lanes s) j) as [[bj qj wj]|]; cbv beta iota delta [buf q w] in Hs; [|discriminate]. destruct (receptive_uni wj); cbv beta iota in Hs; [|discriminate].
-    destruct (handover_where s i j t s' _ Hn (or_intror eq_refl) Hs) as [E Ea]. unfold acc. rewrite E, Ea. exact HI.
-  - (* QDecr *)
-    dq Hs q0. inversion Hs; subst s'; clear Hs. one_lane s i u Hn. unfold acc in *; cbn [accepted setl]. lia.
-  - (* WCheck *)
-    dq Hs w0. inversion Hs; subst s'; clear Hs. one_lane s j u Hn. unfold acc in *; cbn [accepted setl]. lia.
-  - (* WTryFail *)
-    dq Hs w0. inversion Hs; subst s'; clear Hs. one_lane s j u Hn. unfold acc in *; cbn [accepted setl]. lia.
-  - (* WDie *)
-    dq Hs w0. inversion Hs; subst s'; clear Hs. one_lane s j u Hn. unfold acc in *; cbn [accepted setl]. lia.
-  - (* WEnd *)
-    dq Hs w0. inversion Hs; subst s'; clear Hs. one_lane s j u Hn. unfold acc in *; cbn [accepted setl]. lia.
+  intros HI Hs u. specialize (HI u). unfold where_ in *.
+  destruct l; cbn [step] in Hs; inv_step Hs; fin_step Hs s'; st_simpl; st_simpl_in HI;
+    try exact HI; upd_facts (lcount u);
+    try (lc_simpl; lia).
+  - (* PushOk *)
+    match goal with H : push_lane _ _ _ = Some _ |- _ => pose proof (push_lane_count _ _ _ _ u H) end.
+    rewrite cnt_cons. lia.
+  - (* QCheck *) destruct (cancelled s); lc_simpl; lia.
 Qed.
 
 Lemma init_inv n : Inv (init n).
 Proof.
-  intros t. unfold where_, acc, init; cbn [lanes started accepted existsb]. rewrite cnt_nil.
+  intros t. unfold where_, init; cbn [lanes started accepted]. rewrite !cnt_nil.
   induction n; cbn [repeat map]; [reflexivity|].
-  change (list_sum (?a :: ?l)) with (a + list_sum l). unfold ltasks at 1; cbn [buf q qtask app]. rewrite cnt_nil. lia.
+  change (list_sum (?a :: ?l)) with (a + list_sum l). unfold lcount at 1, ltasks at 1; cbn [buf q qtask app]. rewrite cnt_nil. lia.
 Qed.
 
-Fixpoint run qs (s : state) (ls : list label) : option state :=
-  match ls with [] => Some s | l :: r => match step qs s l with Some s' => run qs s' r | None => None end end.
+(* generic: an invariant that holds initially and is preserved holds in every reachable state *)
+Lemma run_invariant (P : state -> Prop) qs :
+  (forall s l s', P s -> step qs s l = Some s' -> P s') ->
+  forall ls s s', P s -> run qs s ls = Some s' -> P s'.
+Proof.
+  intros Hstep. induction ls as [|l r IH]; cbn [run]; intros s s' H0 Hr.
+  - inversion Hr; subst; auto.
+  - destruct (step qs s l) eqn:Hs; [|discriminate]. eapply IH; [eapply Hstep; eauto|auto].
+Qed.
+
+Lemma run_app qs ls1 ls2 s : run qs s (ls1 ++ ls2) = match run qs s ls1 with Some s1 => run qs s1 ls2 | None => None end.
+Proof.
+  revert s; induction ls1 as [|l r IH]; intros s; cbn [run app]; [reflexivity|].
+  destruct (step qs s l); auto.
+Qed.
 
 Theorem reachable_inv qs n ls s : run qs (init n) ls = Some s -> Inv s.
+Proof. apply (run_invariant Inv qs (step_inv qs)). apply init_inv. Qed.
+
+(* ---------- producers: every task id is in exactly one of pending / accepted / failed ---------- *)
+Definition ptask (x : pstate) : list task := match x with Pending _ t => [t] | _ => [] end.
+Definition pcount (t : task) (x : pstate) : nat := cnt_in t (ptask x).
+Definition pending_cnt (s : state) (t : task) : nat := list_sum (map (fun kv => pcount t (snd kv)) (prods s)).
+Definition PInv (s : state) : Prop :=
+  forall t, pending_cnt s t + cnt_in t (accepted s) + cnt_in t (failed s) = cnt_in t (pushed s)
+            /\ cnt_in t (pushed s) <= 1.
+
+Lemma init_pinv n : PInv (init n).
+Proof. intros t. cbn. lia. Qed.
+
+Ltac aset_facts u :=
+  repeat match goal with
+  | |- context [aset ?L ?p ?x] =>
+      lazymatch goal with
+      | _ : list_sum (map _ (aset L p x)) + _ = _ |- _ => fail
+      | _ => pose proof (sum_aset Idle (pcount u) L p x eq_refl)
+      end
+  end.
+
+Theorem step_pinv qs s l s' : PInv s -> step qs s l = Some s' -> PInv s'.
 Proof.
-  remember (init n) as s0. assert (Inv s0) by (subst; apply init_inv). clear Heqs0.
-  revert s0 H; induction ls as [|l r IH]; cbn [run]; intros s0 H0 Hr.
-  - inversion Hr; subst; auto.
-  - destruct (step qs s0 l) eqn:Hs; [|discriminate]. eapply IH; [eapply step_inv; eauto|auto].
+  intros HI Hs u. specialize (HI u). unfold pending_cnt in *.
+  destruct l; cbn [step] in Hs; inv_step Hs; fin_step Hs s'; st_simpl; st_simpl_all;
+    try exact HI; try (destruct r; st_simpl; exact HI);
+    aset_facts u;
+    repeat match goal with H : aget Idle _ _ = _ |- _ => rewrite H in * end;
+    unfold pcount in *; cbn [ptask] in *; rewrite ?cnt_cons, ?cnt_nil in *;
+    try lia.
+  - (* PushBegin, cancelled *)
+    match goal with H : existsb _ _ = false |- _ => apply cnt_existsb in H end.
+    destruct (aget Idle (prods s) p); cbn [ptask is_pending] in *; try discriminate; rewrite ?cnt_nil in *;
+      destruct (Nat.eqb_spec u t); subst; lia.
+  - match goal with H : existsb _ _ = false |- _ => apply cnt_existsb in H end.
+    destruct (aget Idle (prods s) p); cbn [ptask is_pending] in *; try discriminate; rewrite ?cnt_nil in *;
+      destruct (Nat.eqb_spec u t); subst; lia.
 Qed.
 
-Corollary exactly_once qs n ls s t :
-  run qs (init n) ls = Some s -> In t (started s) ->
-  cnt_in t (started s) = 1 /\ existsb (Nat.eqb t) (accepted s) = true.
+Theorem reachable_pinv qs n ls s : run qs (init n) ls = Some s -> PInv s.
+Proof. apply (run_invariant PInv qs (step_pinv qs)). apply init_pinv. Qed.
+
+(* ---------- exactly once ---------- *)
+Theorem exactly_once qs n ls s :
+  run qs (init n) ls = Some s ->
+  NoDup (started s) /\ incl (started s) (accepted s) /\ NoDup (accepted s) /\
+  (forall t, In t (failed s) -> ~ In t (accepted s) /\ ~ In t (started s)).
 Proof.
-  intros Hr Hin. pose proof (reachable_inv _ _ _ _ Hr t) as HI. unfold where_, acc in HI.
-  assert (cnt_in t (started s) >= 1) by (unfold cnt_in; apply count_occ_In; auto).
-  destruct (existsb (Nat.eqb t) (accepted s)); split; auto; lia.
+  intros Hr. pose proof (reachable_inv _ _ _ _ Hr) as HI. pose proof (reachable_pinv _ _ _ _ Hr) as HP.
+  assert (Hle : forall t, cnt_in t (started s) <= cnt_in t (accepted s)).
+  { intros t. specialize (HI t). unfold where_ in HI. lia. }
+  assert (Ha : forall t, cnt_in t (accepted s) <= 1).
+  { intros t. destruct (HP t). lia. }
+  split; [|split; [|split]].
+  - apply NoDup_cnt. intros t. specialize (Hle t). specialize (Ha t). lia.
+  - intros t Hin. apply cnt_pos_In in Hin. apply cnt_pos_In. specialize (Hle t). lia.
+  - apply NoDup_cnt. exact Ha.
+  - intros t Hin. apply cnt_pos_In in Hin. destruct (HP t) as [E1 E2]. specialize (Hle t).
+    split; apply cnt_zero_notIn; lia.
 Qed.
